@@ -51,6 +51,18 @@ def gen_cases():
         lines.append("end")
         cases.append(lines)
         i += 1
+    # Async adapters that nobody awaits (peer alive or gone): idle sources, the wait is not cut short
+    for timeout, timers, sources in itertools.product(["15", "120"], [[], ["40"]], [["adapteridle"], ["adapterclosed"], ["adapteridle", "adapterclosed", "ping"]]):
+        cases.append(["case t%d" % i, "timeout " + timeout] + ["timer " + t for t in timers] + ["source " + s for s in sources] + ["end"])
+        i += 1
+    # sources with lifecycle hooks: a synthetic event returned by any before_sleep forces a non-blocking wait
+    for timeout, sources in itertools.product(["120", "none"], [["lifesynth"], ["lifesynth", "lifequiet"], ["lifequiet", "lifesynth"],
+                                                                  ["lifequiet", "lifesynth", "lifequiet"], ["lifequiet"]]):
+        lines = ["case t%d" % i, "timeout " + timeout] + ["source " + s for s in sources]
+        if timeout == "none":
+            lines.append("waker 60")      # (never needed when a synthetic event is pending — unless the tree is broken)
+        cases.append(lines + ["end"])
+        i += 1
     # a wake-up that ends the wait before the earliest timer is due: the timer must not fire yet
     for timeout, timers in itertools.product(["600", "none"], [["400"], ["300", "500"]]):
         lines = ["case t%d" % i, "timeout " + timeout] + ["timer " + t for t in timers] + ["waker 50", "end"]
@@ -85,6 +97,8 @@ def judge(case, trace):
         idx = int(l.split()[1])
         d = parse(l)
         user, nxt, eff, el, due = d["user"], d["next"], d["eff"], d["elapsed"], d["due"]
+        if d.get("synth") and user != 0:
+            hard.append("dispatch %d: a before_sleep hook returned a synthetic event but the poll was given a timeout of %s ns instead of zero" % (idx, user))
         # the earliest armed deadline is what next_timeout is computed from (sampled a little after `due`)
         if due is None and nxt is not None:
             hard.append("dispatch %d: no timer is armed but the poll used a next deadline of %d ns" % (idx, nxt))
@@ -133,7 +147,7 @@ def split_cases(lines):
 
 def run_impl(cases):
     text = "\n".join("\n".join(c) for c in cases) + "\n"
-    rc, out, err = C.run_vh("timing", text, timeout=3000)
+    rc, out, err = C.run_vh("timing", text, timeout=600)
     if rc != 0:
         raise RuntimeError("vh timing failed: " + err[-300:])
     return split_cases(out.splitlines())
